@@ -98,6 +98,10 @@ type lox struct {
 
 	_qla    int
 	_qlasym any
+
+	// _stalled is true from a successful error recovery until the next input
+	// token is shifted.
+	_stalled bool
 }
 
 func (p *{{parser}}) parse(lex _Lexer) bool {
@@ -121,6 +125,9 @@ func (p *{{parser}}) parse(lex _Lexer) bool {
 		if action == accept {
 			break
 		} else if action >= 0 { // shift
+			if p._qla == -1 {
+				p._stalled = false
+			}
 			{{- if emit_bounds }}
 			latok, ok := p._lasym.(Token)
 			if !ok {
@@ -221,6 +228,18 @@ func (p *{{parser}}) _recover() bool {
 		p._readToken()
 	}
 
+	if p._stalled {
+		// No input was consumed since the last recovery, so resuming at this
+		// token did not help. Drop it to guarantee progress.
+		if p._la == EOF {
+			return false
+		}
+		p._readToken()
+		for p._la == ERROR {
+			p._readToken()
+		}
+	}
+
 	for {
 		save := p._stack
 		found := errSym
@@ -252,6 +271,7 @@ func (p *{{parser}}) _recover() bool {
 				p._qlasym = p._lasym
 				p._la = ERROR
 				p._lasym = found
+				p._stalled = true
 				return true
 			}
 
